@@ -26,7 +26,7 @@ def gen(rng, tier):
     out = []
     for i in range(n):
         kw = dict(fault=0.0, registry_rate=0.5, p_fault_ser=0.0, p_typed=0.35, p_tb=0.08, p_handoff=0.12, p_task=0.1,
-                  depth=4, file_dest=True, p_logcall=0.2, p_reseed=0.2)
+                  depth=4, file_dest=True, p_logcall=0.2, p_reseed=0.2, p_reserved=0.2)
         if tier == "thorough" and i % 3 == 0:
             kw.update(depth=7, width=5)
         if i % 5 == 4:
@@ -145,6 +145,8 @@ def expected_node(case, node, exns):
         fields = {}
         ser = dict((k, f) for k, f in (node.get("ser") or []))
         for k, v in node["fields"]:
+            if k < 19:
+                continue        # an application field named like a reserved one: the library's own value wins
             pv = progs.py_value(v)
             if k in ser:
                 ok, pv = oracles.ref_serfn(ser[k], pv)
@@ -156,6 +158,8 @@ def expected_node(case, node, exns):
     ud = dict((k, f) for k, f in sers["success"])
     start = {}
     for k, v in node["start"]:
+        if k < 19:
+            continue
         pv = progs.py_value(v)
         if k in sd:
             ok, pv = oracles.ref_serfn(sd[k], pv)
@@ -173,9 +177,16 @@ def expected_node(case, node, exns):
         ext = oracles.expected_extractor(case, x["cls"])
         if ext is not None and ext[0] == "fields":
             for k, v in ext[1]:
-                end[progs.key_name(k)] = progs.py_value(v)
+                if k >= 19:
+                    end[progs.key_name(k)] = progs.py_value(v)
     else:
         for k, v in node["succ"]:
+            if k == 7 and not node["sers"]:
+                exc_name = progs.py_value(v)      # a success field that happens to be called "exception" / "reason"
+            if k == 8 and not node["sers"]:
+                reason = progs.py_value(v)
+            if k < 19:
+                continue
             pv = progs.py_value(v)
             if k in ud:
                 ok, pv = oracles.ref_serfn(ud[k], pv)
